@@ -10,6 +10,7 @@ use super::{
     pred_table, Outcome, Suite, Tier,
 };
 use crate::{
+    proto::Site,
     program::{self, GenCfg, Program},
     proto::Toks,
     rng::Rng,
@@ -48,13 +49,19 @@ fn level_num(l: &tracing_core::Level) -> u8 {
 }
 
 fn view_span(s: &CapturedSpan<'_>) -> ItemView {
+    let mut v = view_span_flat(s);
+    v.ancestors = s.ancestors().map(|a| view_span_flat(&a)).collect();
+    v
+}
+
+fn view_span_flat(s: &CapturedSpan<'_>) -> ItemView {
     ItemView {
         level: level_num(s.metadata().level()),
         target: s.metadata().target().to_owned(),
         name: s.metadata().name().to_owned(),
         values: s.values().map(|(k, v)| (k.to_owned(), crate::proto::Val::from_real(v))).collect(),
         message: None,
-        ancestors: s.ancestors().map(|a| { let mut v = view_span(&a); v.ancestors.clear(); v }).collect(),
+        ancestors: vec![],
     }
 }
 
@@ -72,7 +79,7 @@ fn view_event(e: &CapturedEvent<'_>) -> ItemView {
         name: e.metadata().name().to_owned(),
         values,
         message,
-        ancestors: e.ancestors().map(|a| { let mut v = view_span(&a); v.ancestors.clear(); v }).collect(),
+        ancestors: e.ancestors().map(|a| view_span_flat(&a)).collect(),
     }
 }
 
@@ -282,6 +289,39 @@ impl Suite for Pred {
                 }
             }
         }
+        // a message as long as the longest predicate constants (their rendering exceeds 200 bytes)
+        for op in &mut prog.ops {
+            if let program::POp::Evt { k, vals, .. } = op {
+                if prog.sites[*k].fields.first().map(String::as_str) == Some("message") {
+                    for (i, tok) in vals.iter_mut() {
+                        if *i == 0 && rng.chance(1, 10) {
+                            let long = "проверка".repeat(24);
+                            let text = if rng.chance(1, 2) { long } else { format!("x{long}") };
+                            *tok = format!("str:{}", crate::proto::hex(text.as_bytes()));
+                        }
+                    }
+                }
+            }
+        }
+        if idx % 25 == 11 {
+            // a deep chain: 10..24 nested spans whose names repeat with period 3 except that only the
+            // outermost ones are called `n1` / `n2`, an event at the bottom - ancestor predicates that
+            // hold for a distant ancestor only
+            let depth = rng.range(10, 24);
+            let mk = |name: &str, level: u8, is_span: bool, fields: Vec<String>| Site { is_span, level, name: name.into(), target: "app".into(), module_path: None, file: None, line: None, fields };
+            let sites = vec![mk("n1", 0, true, vec![]), mk("n2", 2, true, vec![]), mk("n0", 3, true, vec!["f0".into()]), mk("ev", 2, false, vec!["message".into(), "f0".into()])];
+            let mut ops = vec![];
+            for h in 0..depth {
+                let k = if h == 0 { 0 } else if h == 1 { 1 } else { 2 };
+                ops.push(program::POp::New { k, parent: program::PParent::Ctx, vals: if k == 2 { vec![(0, "i64:1".into())] } else { vec![] } });
+                ops.push(program::POp::Ent(h));
+            }
+            ops.push(program::POp::Evt { k: 3, parent: program::PParent::Ctx, vals: vec![(0, format!("str:{}", crate::proto::hex(b"s0"))), (1, "i64:1".into())] });
+            for h in (0..depth).rev() {
+                ops.push(program::POp::Ext(h));
+            }
+            prog = Program { sites, ops, malformed: false };
+        }
         let mut lines = prog.lines();
         let (n_sp, n_ev): (usize, usize) = (SPAN_PREDS.with(Vec::len), EVENT_PREDS.with(Vec::len));
         let n_q = if tier == Tier::Quick { 60 } else { 120 };
@@ -295,7 +335,7 @@ impl Suite for Pred {
         let n_events = prog.ops.iter().filter(|o| matches!(o, program::POp::Evt { .. })).count().max(1);
         for _ in 0..n_q {
             match rng.below(8) {
-                0..=2 => lines.push(format!("q sp {} {}", rng.below(n_spans + 1), SPAN_PREDS.with(|t| t[sp_pick(rng)].0))),
+                0..=2 => lines.push(format!("q sp {} {}", if idx % 25 == 11 && rng.chance(1, 2) { n_spans - 1 } else { rng.below(n_spans + 1) }, SPAN_PREDS.with(|t| t[sp_pick(rng)].0))),
                 3..=5 => lines.push(format!("q ev {} {}", rng.below(n_events + 1), EVENT_PREDS.with(|t| t[ev_pick(rng)].0))),
                 6 => {
                     let kind = *rng.pick(&["single", "first", "last", "all", "none"]);
@@ -319,7 +359,7 @@ impl Suite for Pred {
             out.obs.push("bad-input".into());
             return out;
         }
-        let cfg = Config { layers: vec![Filt::All], global: None, pass: vec![], per_layer: false, nested: false };
+        let cfg = Config { layers: vec![Filt::All], global: None, pass: vec![], per_layer: false, nested: false, probes: vec![] };
         let (storages, panicked) = run_capture(&prog, &cfg);
         if panicked {
             out.obs.push("panic".into());
